@@ -29,6 +29,17 @@ CLAIMED = {
          '(centre bisection = every interior point), binGti_eq (the four-way break/continue loop equals the sum of overlaps on sorted disjoint GTIs) and bin_gti_needs_sorted; '
          'models compared exactly with xGTIList, xObservationTimeline (synthetic epochs, several queries per object) and xEventBinningLC._bin_gti; LC EXPOSURE through the real xpbin.',
          'Lean kernel (core only); hand-written models + generators; the trajectory layer that locates SAA/occultation boundaries is not modelled (needs the emptied ephemeris); numpy.searchsorted; astropy I/O.'),
+ 'C09': ('proof', 'Lean 4 theorems about a model of xEventSelect (mask, select, validate) on order-preserving integer keys, tied by exact differential correspondence',
+         'select_iff_predicate, select_sublist, the documented bound conventions (closed lower/open upper in time, phase, energy; closed radii), the three invert partitions, '
+         'adjacent-interval partitions, chain_eq_conj/chain_comm, validate_time_ok; the model is compared exactly (row tags) with the real xEventSelect.select() for all flag '
+         'combinations with bounds on event values ± 1 ulp, and an independent transcription of the documented predicate is evaluated on the implementation output.',
+         'Lean kernel (core only); model + generators; the monotone float->Int key map and the float32 evaluation of the generated channel_to_energy in the driver; angular separation and '
+         'region membership per row come from the libraries (astropy WCS, regions) and are abstract in the model; several --mcsrcid are and-ed (recorded, not judged).'),
+ 'C10': ('proof', 'Lean 4 theorems about a model of _time_header_keywords (RealLike), tied by correspondence on Float and an independent documented-value oracle',
+         'time_kw_spec (TSTART=max, TSTOP=min, missing bound keeps the original, ONTIME their difference — under the bounds _validate enforces), phase_kw_spec, ltsum_spec, ltscale_spec, '
+         'deadc_range; the five keywords in PRIMARY/EVENTS/GTI are compared with the model and with the documented values on real xEventSelect runs (one/two-sided windows, empty windows, '
+         'both algorithms, two-step histories).',
+         'Lean kernel + Mathlib (ℝ); axioms propext/Classical.choice/Quot.sound; model + generators; the row mask is C09; float rounding outside the model (1e-9 relative).'),
 }
 NOT_YET = 'check not built yet in this round (work in progress; see DESIGN.md section 7 for the planned model and theorems)'
 
